@@ -36,10 +36,15 @@ Definition rt_fty (m : mode) (t : fty) : bool :=
   | _, TStr (Some _) _ _ => false            (* StringField.format is not written *)
   | _, TStr None (Some r) _ => pat_plain (sr_pat r)
   | _, TKey None e l =>
-      (* without a format the key is recognised by its annotations only *)
+      (* without a format the key is recognised by its annotations only; list
+         rules of an unformatted key make it read back as informal *)
       match l with Some _ => false | None => match m with MSingle => true | _ => is_some e end end
   | _, TKey (Some KUuid) _ _ | _, TKey (Some KId62) _ _ => true
-  | _, TKey (Some _) _ _ => false          (* custom pattern / informal are not read back *)
+  (* custom pattern / informal live in (j5.ext.v1.field).key, which array items and map values do not have *)
+  | MSingle, TKey (Some KInformal) _ _ => true
+  (* a custom key with list rules is written as a unique_string foreign key, which reads back informal *)
+  | MSingle, TKey (Some (KCustom p)) _ l => pat_plain (Some p) && negb (is_some l)
+  | _, TKey (Some _) _ _ => false
   | MSingle, _ => true
   (* inside an array or a map there is no (j5.ext.v1.field) of the item *)
   | _, TDate (Some _) _ | _, TDecimal (Some _) _ => false
@@ -201,7 +206,19 @@ Proof.
     apply obind_ok in Hw as [lst [Hl Hw]]. inversion Hw; subst w; clear Hw.
     destruct id62_not_wellknown as [Hd Hn].
     cbn [fw_kind read_field fw_val fw_list fw_ext fw_key norm_fty].
-    destruct f as [[|p| |]|]; try (destruct m; discriminate).
+    destruct f as [[|p| |]|].
+    + (* informal: only as a singular property, and never with list rules (compile error) *)
+      destruct m; try discriminate.
+      destruct l as [p0|]; [discriminate|]. inversion Hl; subst lst. unfold read_string. cbn.
+      destruct e as [[[[[|]|pp ee]|] tn]|]; reflexivity.
+    + (* custom *)
+      destruct m; try discriminate.
+      apply andb_true_iff in Hrt as [Hp Hnl]. destruct l as [p0|]; [discriminate|].
+      inversion Hl; subst lst. unfold pat_plain in Hp.
+      apply andb_true_iff in Hp as [Hp H3]. apply andb_true_iff in Hp as [H1 H2].
+      apply negb_true_iff in H1, H2, H3.
+      unfold read_string. cbn [only_ty c_ty vt_of]. rewrite H1, H2, H3. cbn.
+      destruct e as [[[[[|]|pp ee]|] tn]|]; reflexivity.
     + (* uuid *)
       destruct l as [p0|]; inversion Hl; subst lst; unfold read_string; cbn;
         destruct e as [[[[[|]|pp ee]|] tn]|]; destruct m; reflexivity.
